@@ -49,7 +49,7 @@ def plan(tier, seed):
 
 def _pairs(r, dim, s1, s2, tier):
     """yield (pattern name, coords_a, coords_b) with bit-level control over which coordinates differ"""
-    n = 2 if tier == "quick" else 8
+    n = 3 if tier == "quick" else 30
     for _ in range(n):
         while True:
             rv, _lab = (gen.vec4(r, core=True) if dim == 4 else gen.vec(r, dim, core=True))
